@@ -308,7 +308,29 @@ Proof.
   rewrite M. destruct (dv c); reflexivity.
 Qed.
 
-(* phase A: the 13 statements before the alias loop *)
+(* the first 8 statements (straight-line assignments), for every configuration and field wrapper *)
+Definition nested0_of (c : cfg) (f : fw) : string :=
+  match nm c with NDefault => dest f | NWithoutRoot => join_dot (tl (split_dot (dest f))) end.
+Definition envB (c : cfg) (f : fw) (nested0 : string) : env :=
+  assign "nested_option" (VS nested0) (assign "option" (VS (pfx f ++ name f)) (assign "dash" (VS (dash_for (name f)))
+  (assign "nested_mode" (VS (nm_name (nm c))) (assign "gen_mode" (VS (gm_name (gm c)))
+  (assign "add_dash_variants" (VS (dv_name (dv c))) (assign "options" (VL []) (assign "dashes" (VL []) (env_of c f)))))))).
+
+Lemma phaseA1 c f : exec_block (env_of c f) (firstn 8 option_strings_src) = Ok (envB c f (nested0_of c f), None).
+Proof.
+  destruct f as [pa n p al pos]. destruct c as [d g m].
+  unfold option_strings_src, envB, nested0_of. cbn [firstn name pfx aliases dv gm nm]. unfold dash_for.
+  destruct (Nat.eqb (String.length n) 1) eqn:L; destruct m; (step; rewrite ?L; do 4 step; reflexivity).
+Qed.
+
+Lemma src_split8 : option_strings_src = (firstn 8 option_strings_src ++ skipn 8 option_strings_src)%list.
+Proof. reflexivity. Qed.
+Lemma partA_split8 : partA = (firstn 8 option_strings_src ++ firstn 5 (skipn 8 option_strings_src))%list.
+Proof. reflexivity. Qed.
+
+(* phase A: the 13 statements before the alias loop.  After the first 8, the length of the name decides the dash: split on
+   its first two characters, then both sides compute (names, prefixes, destinations, the nested spelling and the aliases stay
+   symbolic: the evaluation is stuck on them on both sides alike) *)
 Lemma phaseA c f :
   positional f = false ->
   exists rA, exec_block (env_of c f) partA = Ok (rA, None)
@@ -318,10 +340,14 @@ Lemma phaseA c f :
     /\ lookup "dashes" rA = Some (VL (map VS (map fst (gen_pairs c f))))
     /\ lookup "options" rA = Some (VL (map VS (map snd (gen_pairs c f)))).
 Proof.
-  intros Hpos. destruct f as [pa n p al pos]. destruct c as [d g m]. cbn [positional] in Hpos. subst pos.
-  unfold partA, option_strings_src, gen_pairs. cbn [firstn name pfx aliases dv gm nm]. unfold dash_for.
-  destruct (Nat.eqb (String.length n) 1) eqn:L; destruct d, g, m;
-    (step; rewrite ?L; do 6 step; eexists; split; [reflexivity|]; repeat split; reflexivity).
+  intros Hpos. rewrite partA_split8, exec_block_app, phaseA1.
+  unfold gen_pairs. cbv zeta. change (match nm c with NDefault => dest f | NWithoutRoot => join_dot (tl (split_dot (dest f))) end) with (nested0_of c f).
+  generalize (nested0_of c f) as no. intros no.
+  destruct f as [pa n p al pos]. destruct c as [d g m]. cbn [positional] in Hpos. subst pos.
+  destruct n as [|a [|b n']]; destruct d, g;
+    (match goal with |- context [exec_block ?e ?b] =>
+       let v := eval vm_compute in (exec_block e b) in
+       match v with Ok (?r, None) => exists r; split; [vm_compute; reflexivity | repeat split; vm_compute; reflexivity] end end).
 Qed.
 
 Theorem src_is_model c f : positional f = false -> run_src c f = Ok (VL (map VS (option_strings c f))).
@@ -349,8 +375,8 @@ Theorem src_is_model_positional c f : positional f = true -> run_src c f = Ok (V
 Proof.
   intros Hpos. unfold option_strings. rewrite Hpos.
   destruct f as [pa n p al pos]. destruct c as [d g m]. cbn [positional] in Hpos. subst pos.
-  unfold run_src, run, option_strings_src.
-  destruct (Nat.eqb (String.length n) 1) eqn:L; destruct d, g, m; (step; rewrite ?L; do 4 step; reflexivity).
+  unfold run_src, run. rewrite src_split8, exec_block_app, phaseA1. generalize (nested0_of (mkcfg d g m) (mkfw pa n p al true)) as no. intros no.
+  destruct n as [|a [|b n']]; destruct d; vm_compute; reflexivity.
 Qed.
 
 (* hence: what the regenerated source returns for an unclashed field is exactly the documented set of spellings *)
